@@ -1,7 +1,7 @@
 (* C05 — property theorems.  Statements only: each is closed by [exact] of a lemma proved in
    coq/C05/, followed by Print Assumptions. *)
 From Coq Require Import ZArith QArith Qabs List.
-From Scenic Require Import C05.Expr C05.SupportProofs C05.NodeProofs C05.SimplifyProofs.
+From Scenic Require Import C05.Expr C05.SupportProofs C05.NodeProofs C05.SimplifyProofs C05.CaptureProofs.
 Import ListNotations.
 Open Scope Q_scope.
 
@@ -96,3 +96,53 @@ Example C05_examples :
   eval_py (fun _ => VS (SFloat (5 # 2))) (EBin FloorDiv (ERange 0 (EConst (VS (SInt 0))) (EConst (VS (SInt 3)))) (EConst (VS (SInt 1))))
     = ROk (VS (SFloat 2)).
 Proof. vm_compute. split; reflexivity. Qed.
+
+(* ---------------------------------------------------------------- end-to-end capture_eval (round 2)
+   For EVERY expression tree of the numeric fragment (random leaves, Range / DiscreteRange with nested bounds,
+   TruncatedNormal, numeric constants, neg / pos / abs / ** n, and + - * / // % with a random operand on either side
+   or both) and EVERY valuation of the leaves by numbers: what Scenic evaluates at sampling time on the DAG captured
+   at compile time -- constant folding, reflected operators for `const op random`, the identity shortcuts x+0, 0+x,
+   x-0, x*1, 1*x, x/1, x**1 (whatever the static types say), compile-time errors of constant sub-expressions -- agrees
+   with plain Python on the sampled leaves: both raise ZeroDivisionError or both return numerically equal numbers.
+   Holds for the code before and after the seq-radd fix ([fixed]) and with or without the shortcuts ([simp]);
+   [fdiv = false] is the code after a3d0fb76 (with the x//1 shortcut the statement is false: C05_floordiv1_refuted). *)
+Theorem C05_capture_eval_num : forall (tau : nat -> bool) (simp fixed : bool) (s : valuation),
+  (forall i, exists x, vnum (s i) = Some x) ->
+  forall e, nexpr e ->
+    scalar_cap (capture tau simp false e) /\
+    sim (eval_cap fixed s (capture tau simp false e)) (eval_py s e).
+Proof. exact capture_eval_num. Qed.
+Print Assumptions C05_capture_eval_num.
+
+(* the ingredients, each for all numbers: arithmetic respects numeric equality (int vs float representations),
+   and sampleGiven's special-method dance equals Python's operator on agreeing operands *)
+Theorem C05_arith_cong : forall o x y x' y',
+  toQ x == toQ x' -> toQ y == toQ y' -> sim (res_of (arith o x y)) (res_of (arith o x' y')).
+Proof. exact arith_cong. Qed.
+Print Assumptions C05_arith_cong.
+Theorem C05_op_sample_sim : forall fixed o (refl : bool) a b a' b', sim a a' -> sim b b' ->
+  sim (strict2 (op_sample fixed o refl) a b)
+      (if refl then strict2 (py_binop o) b' a' else strict2 (py_binop o) a' b').
+Proof. exact op_sample_sim. Qed.
+Print Assumptions C05_op_sample_sim.
+
+(* the sign analysis of the quotient's support is needed: deciding the upper bound from the sign of the numerator's
+   LOWER bound is unsound for numerators straddling zero (the real rule is covered by C05_support_sound) *)
+Theorem C05_div_upper_by_lower_sign_refuted :
+  exists l1 r1 l2 r2 x y, l1 <= x <= r1 /\ l2 <= y <= r2 /\ 0 < l2 /\
+    ~ x / y <= (if qleb 0 l1 then r1 / l2 else r1 / r2).
+Proof. exact div_upper_by_lower_sign_refuted. Qed.
+Print Assumptions C05_div_upper_by_lower_sign_refuted.
+
+(* non-vacuity: (0 + Range(-1,2)) / DiscreteRange(1,2) * 1 ** 1 is in the fragment; captured with two shortcuts *)
+Example C05_capture_eval_example :
+  let e := EUn (PowN 1) (EBin Mul (EBin Div (EBin Add (EConst (VS (SInt 0))) (ERange 0 (EConst (VS (SInt (-1)))) (EConst (VS (SInt 2)))))
+                                         (EDRange 1 (EConst (VS (SInt 1))) (EConst (VS (SInt 2))))) (EConst (VS (SInt 1)))) in
+  nexpr e /\
+  capture (fun _ => true) true false e =
+    CN (NOp Div false (NRange 0 (NConst (VS (SInt (-1)))) (NConst (VS (SInt 2)))) (NDRange 1 (NConst (VS (SInt 1))) (NConst (VS (SInt 2))))) /\
+  eval_py (fun i => match i with O => VS (SFloat (3 # 2)) | _ => VS (SInt 2) end) e = ROk (VS (SFloat (3 # 4))).
+Proof.
+  split; [|split; reflexivity].
+  repeat (first [apply NE_un | apply NE_bin | apply NE_range | apply NE_drange | eapply NE_const; reflexivity | apply NE_leaf]).
+Qed.
